@@ -13,7 +13,7 @@ ReadCellsOK == {x \in ReadCells : Applicable(x.rp, x.kind) /\ x.cache \in Caches
 CellsToRun == IF obs.k = "lenient" THEN {} ELSE ReadCellsOK
 
 BehaviourExport ==
-  (Len(hist) > 0 /\ obs.k # "read") =>
+  (Len(hist) > 0 /\ obs.k # "reads") =>
      PrintT(<<"BEH", ToJson([steps |-> hist, tree |-> tree, cur |-> cur, reads |-> CellsToRun])>>)
 
 ASSUME PrintT(<<"CELLS", ToJson(Matrix)>>)
